@@ -515,6 +515,6 @@ theorem advance_retag (f : Tag → Tag) (c : Chain) (n : Nat) :
   simp only [retagChain, advLoop_retag]
   split
   · simp
-  · cases advLoop c.segs n c.cachedLen <;> simp [retagChain]
+  · cases advLoop c.segs n c.cachedLen <;> simp
 
 end Penguin.C20
